@@ -25,9 +25,17 @@ type memHist struct {
 	// Fixed gives concrete begin addresses to the blocks (fewer overlap
 	// patterns to explore: only the writes and the read are placed freely).
 	Fixed []uint64
+	// Wide histories are read with the wide load width only (loads of more
+	// than 32 bytes: shift amounts above 255 bits), all others never with it.
+	Wide bool
+	// StoreAt fixes the address of the j-th write (0: arbitrary).
+	StoreAt []uint64
 }
 
 func (h memHist) String() string {
+	if h.StoreAt != nil {
+		return fmt.Sprintf("blocks%v@%x stores%v@%x", h.Blocks, h.Fixed, h.Stores, h.StoreAt)
+	}
 	if h.Fixed != nil {
 		return fmt.Sprintf("blocks%v@%x stores%v", h.Blocks, h.Fixed, h.Stores)
 	}
@@ -47,6 +55,9 @@ type histState struct {
 	BlockAddrs []*smt.Term
 	BlockLens  []int
 }
+
+// wideLoad is the load width used for the wide histories.
+const wideLoad = 40
 
 func nowrapTerm(addr *smt.Term, n int) *smt.Term {
 	if n == 0 {
@@ -98,6 +109,7 @@ func memHistories(kind, tier string) []memHist {
 		hs = []memHist{
 			{}, {Stores: st([2]int{4, 4})}, {Stores: st([2]int{4, 8})}, {Stores: st([2]int{8, 2})},
 			{Stores: st([2]int{4, 4}, [2]int{2, 2})}, {Stores: st([2]int{2, 1}, [2]int{2, 4})},
+			{Stores: st([2]int{40, 8}, [2]int{1, 1}), StoreAt: []uint64{0x1000}, Wide: true},
 		}
 		if tier == "thorough" {
 			hs = append(hs, memHist{Stores: st([2]int{1, 1})}, memHist{Stores: st([2]int{2, 2}, [2]int{4, 4})}, memHist{Stores: st([2]int{8, 8}, [2]int{1, 1})},
@@ -109,9 +121,14 @@ func memHistories(kind, tier string) []memHist {
 		hs = []memHist{
 			{}, {Blocks: []int{4}}, {Blocks: []int{2, 3}}, {Stores: st([2]int{2, 2})}, {Blocks: []int{4}, Stores: st([2]int{2, 2})},
 			{Blocks: []int{2}, Stores: st([2]int{4, 4})}, {Blocks: []int{1, 1}, Fixed: []uint64{0x1000, 0x1002}, Stores: st([2]int{2, 2}), Heavy: true}, {Stores: st([2]int{2, 2}, [2]int{2, 2}), Heavy: true},
+			// a constant narrower than the write (zero-extension), and wider (truncation)
+			{Stores: st([2]int{4, 2})}, {Blocks: []int{2}, Stores: st([2]int{2, 1})}, {Stores: st([2]int{1, 2})},
+			// adjacent initial blocks are merged by NewBytes (the merged block has spare capacity)
+			{Blocks: []int{2, 2}, Fixed: []uint64{0x1000, 0x1002}, Stores: st([2]int{4, 4}), Heavy: true},
+			{Blocks: []int{1, 1, 1}, Fixed: []uint64{0x1000, 0x1001, 0x1003}, Stores: st([2]int{2, 2}), Heavy: true},
 		}
 		if tier == "thorough" {
-			hs = append(hs, memHist{Blocks: []int{1, 1}, Stores: st([2]int{1, 1})}, memHist{Blocks: []int{2, 2}, Stores: st([2]int{2, 2})}, memHist{Blocks: []int{3}, Stores: st([2]int{1, 1}, [2]int{2, 4})},
+			hs = append(hs, memHist{Blocks: []int{1, 1}, Stores: st([2]int{1, 1})}, memHist{Stores: st([2]int{1, 1}, [2]int{1, 1}, [2]int{2, 2})}, memHist{Blocks: []int{2, 2}, Stores: st([2]int{2, 2})}, memHist{Blocks: []int{3}, Stores: st([2]int{1, 1}, [2]int{2, 4})},
 				memHist{Blocks: []int{2, 2}, Stores: st([2]int{4, 4})}, memHist{Blocks: []int{1, 1}, Stores: st([2]int{1, 1}, [2]int{1, 1})},
 				memHist{Stores: st([2]int{1, 1}, [2]int{1, 1}, [2]int{1, 1})}, memHist{Blocks: []int{2, 2, 2}, Stores: st([2]int{2, 2})})
 		}
@@ -120,6 +137,8 @@ func memHistories(kind, tier string) []memHist {
 			{Blocks: []int{4}}, {Blocks: []int{2, 2}}, {Blocks: []int{4}, Stores: st([2]int{2, 2})}, {Blocks: []int{2}, Stores: st([2]int{4, 4})},
 			{Blocks: []int{4}, Fixed: []uint64{0x1000}, Stores: st([2]int{1, 1}, [2]int{1, 1}), Heavy: true}, {Stores: st([2]int{2, 2})},
 			{Blocks: []int{2, 2}, Fixed: []uint64{0x1000, 0x1003}, Stores: st([2]int{2, 4}), Heavy: true},
+			{Blocks: []int{40}, Fixed: []uint64{0x1000}, Stores: st([2]int{1, 1}), Wide: true},
+			{Blocks: []int{2}, Stores: st([2]int{4, 2})},
 		}
 		if tier == "thorough" {
 			hs = append(hs, memHist{Blocks: []int{4}, Stores: st([2]int{1, 1}, [2]int{1, 1})}, memHist{Blocks: []int{2, 2}, Stores: st([2]int{2, 4})},
@@ -209,8 +228,12 @@ func (c *Ctx) installMemBuiltins(ev *spec.Eval, hists []memHist) {
 		}
 		return c
 	}
+	var curHist memHist
 	store := func(fn *ssa.Function, recv sx.Val, j int, w, ew int, constant bool) {
 		addr := smt.Var(fmt.Sprintf("st%d.addr", j), smt.BV(64))
+		if j < len(curHist.StoreAt) && curHist.StoreAt[j] != 0 {
+			addr = smt.BVU(curHist.StoreAt[j], 64)
+		}
 		p.Assume(nowrapTerm(addr, w))
 		v := smt.Var(fmt.Sprintf("st%d.val", j), smt.BV(8*ew))
 		var ex sx.Val
@@ -235,6 +258,7 @@ func (c *Ctx) installMemBuiltins(ev *spec.Eval, hists []memHist) {
 	}
 	B["sparse_hist"] = func(ev *spec.Eval, a []ast.Expr) spec.TV {
 		h := getHist(ev, a)
+		curHist = h
 		m := call(c.memFn("state/memory.NewSparse"))
 		st := c.memFn("(*state/memory.Sparse).Store")
 		for j, s := range h.Stores {
@@ -266,6 +290,7 @@ func (c *Ctx) installMemBuiltins(ev *spec.Eval, hists []memHist) {
 	}
 	B["bytes_hist"] = func(ev *spec.Eval, a []ast.Expr) spec.TV {
 		h := getHist(ev, a)
+		curHist = h
 		b := newBytes(h)
 		st := c.memFn("(*state/memory.Bytes).Store")
 		for j, s := range h.Stores {
@@ -275,6 +300,7 @@ func (c *Ctx) installMemBuiltins(ev *spec.Eval, hists []memHist) {
 	}
 	B["overlay_hist"] = func(ev *spec.Eval, a []ast.Expr) spec.TV {
 		h := getHist(ev, a)
+		curHist = h
 		mark := p.Next
 		base := newBytes(h)
 		freeze(mark) // everything the base consists of
@@ -345,22 +371,7 @@ func (c *Ctx) installMemBuiltins(ev *spec.Eval, hists []memHist) {
 
 // sameHeapVal: an object is unchanged if it is the identical immutable value,
 // or an array with identical elements.
-func sameHeapVal(a, b sx.Val) bool {
-	if a == b {
-		return true
-	}
-	x, ok1 := a.(*sx.Arr)
-	y, ok2 := b.(*sx.Arr)
-	if ok1 && ok2 && len(x.Elems) == len(y.Elems) {
-		for i := range x.Elems {
-			if x.Elems[i] != y.Elems[i] {
-				return false
-			}
-		}
-		return true
-	}
-	return false
-}
+func sameHeapVal(a, b sx.Val) bool { return sx.SameVal(a, b) }
 
 func (c *Ctx) memUnits(name string, kind string, set string) []*vc.Unit {
 	hists := memHistories(kind, c.Tier)
@@ -376,6 +387,10 @@ func (c *Ctx) memUnits(name string, kind string, set string) []*vc.Unit {
 		if w, ok := us.Enum["w"]; ok {
 			us.InstanceName += fmt.Sprintf(" w=%d", w)
 			if h.Heavy && c.Tier != "thorough" && w != c.Sets["LOADW"][0] {
+				us.Skip = true
+				return
+			}
+			if h.Wide != (w == wideLoad) {
 				us.Skip = true
 				return
 			}
@@ -409,9 +424,9 @@ func memProp(id, claim string, names [][3]string) *Prop {
 			"sort.Slice is modelled by an insertion sort through the real less closure; sort.Search is the real code, interpreted",
 		},
 		Build: func(c *Ctx) []*vc.Unit {
-			c.Sets["LOADW"] = []int64{1, 4}
+			c.Sets["LOADW"] = []int64{1, 4, wideLoad}
 			if c.Tier == "thorough" {
-				c.Sets["LOADW"] = []int64{1, 2, 3, 4, 8}
+				c.Sets["LOADW"] = []int64{1, 2, 3, 4, 8, wideLoad}
 			}
 			c.Sets["SIZES"] = []int64{0, 1, 2}
 			var units []*vc.Unit
